@@ -1,4 +1,5 @@
 import MM.Props.C11
+import MM.Props.SizesTie
 
 #print axioms MM.Search.C11_count_eq_spec
 #print axioms MM.Search.C11_sizes_pos
@@ -10,3 +11,5 @@ import MM.Props.C11
 #print axioms MM.length_combos
 #print axioms MM.nodup_combos
 #print axioms MM.Search.choose_eq
+#print axioms MM.Search.tie_trt_sizes
+#print axioms MM.Search.tie_ctl_sizes
